@@ -67,7 +67,7 @@ PROPS = {
     },
     "C04": {
         "level": "proof",
-        "verus": [("daterange", None), ("register", None), ("balance", None), ("query", None), ("bookkeep", ["process_posting", "add_transaction", "ProcessAccumulator::process", "ProcessAccumulator::new"]),
+        "verus": [("daterange", None), ("register", None), ("registercmd", ["callsite:RegisterCmd::run.lines", "anchor:RegisterCmd::run lists what Ledger::postings returns for the account argument"]), ("balance", None), ("query", None), ("bookkeep", ["process_posting", "add_transaction", "ProcessAccumulator::process", "ProcessAccumulator::new"]),
                   ("amounts", ["AddAssign<Amount> for Amount", "Amount::remove_zero_entries", "Amount::set_partial", "AddAssign<PostingAmount> for Amount", "AddAssign<SingleAmount> for Amount", "TryFrom<&Amount> for PostingAmount"])],
         "family": ("c04", {"quick": [], "thorough": []}),
         "explanation": "Verus proves (a) DateRange::contains is exactly start <= d < end with open ends as infinity, adjacent windows partition their union and empty windows contain nothing, "
@@ -79,13 +79,13 @@ PROPS = {
                        "(new postcondition, incl. assigned, deduced and placeholder postings), ProcessAccumulator::process keeps `stored balance == register sum over all stored transactions` and ProcessAccumulator::new establishes it; "
                        "`process` hands both fields to the Ledger unchanged (three textual anchors - its loader closure is outside Verus).  (f) Lemmas over those contracts (proof functions, group `query`): per account and commodity the window report before rounding "
                        "is the sum of the listed amounts of the transactions dated in [start, end); reports over adjacent windows add up to the report over their union; with an unbounded window the re-fold, the stored balance and the register total coincide; "
-                       "the re-fold never holds a zero total.  NOT decided by proof: the register COMMAND's running total (cli) and rounding interplay beyond 'rounded once at the end'; they are exercised by the c04 family (five ledgers incl. back-dated entries, a declared precision, "
+                       "the re-fold never holds a zero total.  (g) the register COMMAND (cli/src/cmd.rs RegisterCmd::run, group `registercmd`): the loop over the listed postings is a statement slice checked against Amount's `+=` contract and the fmt sink model (rule R50): it prints one line per listed posting, in the listed order - account, the posting's amount, a running total - and that running total is, per commodity, the sum of the amounts of the lines printed so far; the list it runs over is what Ledger::postings returned for the account argument (anchor).  NOT decided by proof: how an amount is rendered (InlinePrintAmount) and rounding interplay beyond 'rounded once at the end'; they are exercised by the c04 family (five ledgers incl. back-dated entries, a declared precision, "
                        "assignments, and account names that are prefixes of one another x 100 [start, end) windows against the sum of the listed postings; Ledger::postings per account against the whole-history report).",
         "units_doc": ["core/src/report/query.rs: DateRange::{contains,is_bypass}, BalanceQuery::require_recompute, AccountFilter::is_match, AccountFilter::new (whole function + selection predicate slice), Ledger::postings (whole function)", "core/src/report/balance.rs: Balance::{add_amount, add_posting_amount, round}", "core/src/report/query.rs: Ledger::balance (whole function)",
                       "core/src/report/book_keeping.rs: add_transaction (register-sum postcondition), ProcessAccumulator::{new, process} (invariant), process (anchors)",
-                      "lemmas: lemma_fold_is_register_sum, theorem_adjacent_windows_add_up, theorem_whole_history_agrees, theorem_window_report_shows_no_zero_total"],
+                      "cli/src/cmd.rs: RegisterCmd::run (the listing loop: statement slice + anchor)", "lemmas: lemma_fold_is_register_sum, theorem_adjacent_windows_add_up, theorem_whole_history_agrees, theorem_window_report_shows_no_zero_total"],
         "assumptions": ["assumed: std::borrow::Cow modelled by an enum with the same variants; R30: flat_map / filter_map visit outer then inner elements in order (std definition); R25e: values_mut visits every value once", "assumed L0 model of chrono::NaiveDate: a totally ordered day number (vx/prelude/chrono.rs)", "assumed: Account::as_str is the account's interned name; HashSet::{insert, contains, len} (vstd); ReportContext::all_accounts_unsorted yields every known canonical account exactly once (iterator over the intern store)", L0_DECIMAL, L0_HANDLES, L0_STD, L1_AMOUNT],
-        "not_decided": ["RegisterCmd running total (cli; family only)", "that `process` feeds every entry to the accumulator and hands its fields over (textual anchors, loader closure outside Verus)"],
+        "not_decided": ["how the register renders an amount (InlinePrintAmount Display; family only)", "that `process` feeds every entry to the accumulator and hands its fields over (textual anchors, loader closure outside Verus)"],
     },
     "C05": {
         "level": "other",
